@@ -23,7 +23,7 @@ CLAIMED["C05"] = dict(
    ref="DESIGN.md §5 C05")
 CLAIMED["C02"] = dict(
    text="Single-step frame lemmas: one STUN message of any class/12-bit method with symbolic USERNAME bytes, integrity key kind, transaction id, priority and source address is run through the real Agent.handleInbound from a partly symbolic agent pre-state (pair states/flags, selection, 0..2 outstanding transactions with symbolic id/age/destination/transport); z3 proves on every path that unauthenticated or mismatched messages change no observable (datagrams, candidates, pairs, selection, state, role, timestamps, callbacks, transactions), that a signed response changes pair state only for an outstanding same-transport same-address transaction and only on its own pair, and that indications only refresh a known remote. A second harness runs the real Restart and replays old-generation messages.",
-   note="Bounds: quick 1+1 candidates, thorough 2+2 and lite; UDP host candidates; authenticated-request sources are concrete (prflx creation formats the address). Trusted: encoder (validated natively per run), z3, integrity contract (tag injective in key), taskloop.Run contract (C10 assumed), clock readings within a step <= 1 ms apart. Outside: bytes->Decode (pion/stun), TCP candidates, IPv6 zones.",
+   note="Bounds: quick 1+1 candidates, thorough 2 locals + 1 remote and lite; UDP host candidates; authenticated-request sources are concrete (prflx creation formats the address). Trusted: encoder (validated natively per run), z3, integrity contract (tag injective in key), taskloop.Run contract (C10 assumed), clock readings within a step <= 1 ms apart. Outside: bytes->Decode (pion/stun), TCP candidates, IPv6 zones.",
    ref="DESIGN.md §5 C02")
 
 CLAIMED["C03"] = dict(
@@ -93,8 +93,8 @@ CLAIMED["C11"] = dict(
    ref="DESIGN.md §5 C11", tech="sched")
 
 CLAIMED["C01"] = dict(
-   text="Bounded two-agent model checking on the real code: a controlling and a controlled agent (bare Agent structs, real selectors, real stun.Build/Decode, real handleInbound and ContactCandidates) are joined by a harness network in which every emitted datagram stays in flight until the explorer delivers, drops or duplicates it. After an adversarial prefix of 3 (thorough 4) explorer-chosen steps from {tick A, tick B, deliver, drop, duplicate/reorder in either direction} a fair loss-free suffix of 6 rounds runs. For every prefix and reachability matrix: the selection invariant holds on both sides at every step, Connected is reported exactly while a pair is selected, an unreachable (or one-way) path never yields Connected or a selection, and with a path reachable both ways both agents end Connected on mirror-image pairs.",
-   note="Bounds: quick 1 candidate per side, thorough 2 per side (4 pairs); prefix 3/4 steps, suffix 6 rounds ('eventually' = within the suffix); ticks call ContactCandidates directly (timer goroutine outside); transaction ids pairwise distinct; clock steps <= ~1 ms; integrity contract. Outside: srflx/NAT topologies, longer loss prefixes, Restart mid-session, real timers/sockets.",
+   text="Bounded two-agent model checking on the real code: a controlling and a controlled agent (bare Agent structs, real selectors, real stun.Build/Decode, real handleInbound and ContactCandidates) are joined by a harness network in which every emitted datagram stays in flight until the explorer delivers, drops or duplicates it. After an adversarial prefix of 3 (thorough 2 or 4, see bounds) explorer-chosen steps from {tick A, tick B, deliver, drop, duplicate/reorder in either direction} a fair loss-free suffix of 6 rounds runs. For every prefix and reachability matrix: the selection invariant holds on both sides at every step, Connected is reported exactly while a pair is selected, an unreachable (or one-way) path never yields Connected or a selection, and with a path reachable both ways both agents end Connected on mirror-image pairs.",
+   note="Bounds: quick 1 candidate per side with a 3-step prefix; thorough 2 per side (4 pairs) with a 2-step prefix and 1 per side with a 4-step prefix; suffix 6 rounds ('eventually' = within the suffix); ticks call ContactCandidates directly (timer goroutine outside); transaction ids pairwise distinct; clock steps <= ~1 ms; integrity contract. Outside: srflx/NAT topologies, longer loss prefixes, Restart mid-session, real timers/sockets.",
    ref="DESIGN.md §5 C01")
 
 CLAIMED["C08"] = dict(
